@@ -1409,7 +1409,7 @@ func (e *ForExpr) Value(ctx *hcl.EvalContext) (cty.Value, hcl.Diagnostics) {
 		return cty.DynamicVal, diags
 	}
 	if collVal.Type() == cty.DynamicPseudoType {
-		return cty.DynamicVal, diags
+		return cty.DynamicVal.WithSameMarks(collVal), diags
 	}
 	// Unmark collection before checking for iterability, because marked
 	// values cannot be iterated
